@@ -412,6 +412,14 @@ func (c *Ctx) candidate13(caseIdx int, prog *Prog, sd c13Sched, target string) {
 		// compilation, or something of the process itself (each schedule runs in
 		// a worker pool with its own GOMAXPROCS), or run-to-run variation
 		c.ev.Count("candidates_not_reproducible_from_a_cold_process", 1)
+		c.mu.Lock()
+		tries := c.warmTries
+		c.warmTries++
+		c.mu.Unlock()
+		if tries >= 8 {
+			c.ev.Count("unconfirmed_candidates", 1)
+			return // the expensive explanations were tried often enough in this run
+		}
 		if !c.warmSearch("c13", caseIdx, c.ncases, prog, AllTargets, target) {
 			if !c.confirmUnseamed(caseIdx, prog, target) {
 				c.logf("candidate (case %d, %s, %s) reproduced neither in a fresh process, nor in a warm session, nor across 12 fresh processes under GOMAXPROCS 1/4/16: not reported", caseIdx, sd.name, target)
